@@ -236,7 +236,7 @@ def check_contract(code: bytes, a: int, b: int, rep: str, light: bool = False):
 
 # ---------------------------------------------------------------- jump programs (mode c)
 
-def ref_run(code: bytes, max_steps=300):
+def ref_run(code: bytes, max_steps=300, cd: bytes = b""):
     """concrete interpreter for the 9-opcode alphabet (+PUSHn). returns (status, stack)"""
     _, jds = ref_scan(code, 0, 0)
     pc, st, steps = 0, [], 0
@@ -276,6 +276,13 @@ def ref_run(code: bytes, max_steps=300):
                 pc += 1
         elif op == 0x5B:
             pc += 1
+        elif op == 0x35:
+            if len(st) < 1:
+                return ("StackUnderflowError", None)
+            o = st.pop()
+            w = cd[o : o + 32] if o < len(cd) else b""
+            st.append(int.from_bytes(w + b"\0" * (32 - len(w)), "big"))
+            pc += 1
         elif 0x5F <= op <= 0x7F:
             L = ilen(op)
             raw = code[pc + 1 : pc + L]
@@ -290,38 +297,55 @@ def ref_run(code: bytes, max_steps=300):
 _ARGS = None
 
 
-def run_jump_case(code: bytes):
-    """run fully concrete code through SEVM.run and compare with ref_run"""
+def run_jump_case(code: bytes, symbolic: bool = False):
+    """run code through SEVM.run and compare with ref_run.  symbolic=True: 32 bytes of symbolic
+    calldata (the program may CALLDATALOAD it, e.g. as a JUMPI condition); every reported path
+    that admits a probe input must show the reference outcome for that input."""
     from vfw import sym
 
     global _ARGS
-    exp, exp_stack = ref_run(code)
-    if exp in ("loop", "overflow", "other"):
-        return None, exp
+    probes = [b""] if not symbolic else [bytes(32), (1).to_bytes(32, "big"), (1 << 255).to_bytes(32, "big"), b"\xff" * 32]
+    exps = [ref_run(code, cd=p) for p in probes]
+    if any(e[0] in ("loop", "overflow", "other") for e in exps):
+        return None, exps[0][0]
     if _ARGS is None:
         _ARGS = sym.base_config(depth=5000)
-    world = {"accounts": [{"addr": 0x1000, "code": code.hex()}], "target": 0x1000, "cdlen": 0, "caller": 1, "origin": 1, "value": 0}
+    world = {"accounts": [{"addr": 0x1000, "code": code.hex()}], "target": 0x1000, "cdlen": 32 if symbolic else 0, "caller": 1, "origin": 1, "value": 0}
     try:
         sevm, exs = sym.run_world(world, _ARGS)
     except Exception as e:
-        return [(["run", "raise", type(e).__name__], repr(e))], exp
-    if len(exs) != 1:
-        return [(["run", "paths"], f"{len(exs)} paths for concrete code")], exp
-    ex = exs[0]
-    err = ex.context.output.error
-    got = "stop" if err is None and ex.context.output.data is not None else type(err).__name__
+        return [(["run", "raise", type(e).__name__], repr(e))], exps[0][0]
+    if not symbolic and len(exs) != 1:
+        return [(["run", "paths"], f"{len(exs)} paths for concrete code")], exps[0][0]
     fails = []
-    if got != exp:
-        tag = "rejects-genuine-jumpdest" if got == "InvalidJumpDestError" else ("jumps-into-invalid" if exp == "InvalidJumpDestError" else "outcome")
-        fails.append((["run", tag], f"got {got} expected {exp}"))
-    elif exp == "stop":
-        try:
-            st = [sym.word_value(w, symeval.Env()) for w in ex.st.stack]
-        except Exception as e:
-            st = repr(e)
-        if st != exp_stack:
-            fails.append((["run", "stack"], f"got {st} expected {exp_stack}"))
-    return fails, exp
+    for p, (exp, exp_stack) in zip(probes, exps):
+        env = symeval.Env({"cd": int.from_bytes(p, "big")} if symbolic else {})
+        covering = []
+        for ex in exs:
+            try:
+                ok, _, _ = symeval.eval_conditions(list(ex.path.conditions), env.copy())
+            except Exception as e:
+                fails.append((["run", "eval", type(e).__name__], repr(e)))
+                ok = False
+            if ok:
+                covering.append(ex)
+        if not covering:
+            fails.append((["run", "uncovered"], f"no reported path admits calldata {p.hex()} (expected {exp})"))
+            continue
+        for ex in covering:
+            err = ex.context.output.error
+            got = "stop" if err is None and ex.context.output.data is not None else type(err).__name__
+            if got != exp:
+                tag = "rejects-genuine-jumpdest" if got == "InvalidJumpDestError" else ("jumps-into-invalid" if exp == "InvalidJumpDestError" else "outcome")
+                fails.append((["run", tag], f"cd={p.hex()} got {got} expected {exp}"))
+            elif exp == "stop":
+                try:
+                    st = [sym.word_value(w, env) for w in ex.st.stack]
+                except Exception as e:
+                    st = repr(e)
+                if st != exp_stack:
+                    fails.append((["run", "stack"], f"cd={p.hex()} got {st} expected {exp_stack}"))
+    return fails, exps[-1][0]
 
 
 # ---------------------------------------------------------------- shards
@@ -407,23 +431,26 @@ def run_shard(spec, seed, tier):
                 if idx % spec["of"] != spec["part"]:
                     continue
                 body = bytes(tup)
-                for kind in ("jump", "jumpi1", "jumpi0"):
+                for kind in ("jump", "jumpi1", "jumpi0", "jumpis"):
                     hdr_len = 4 if kind == "jump" else 6
                     total = hdr_len + len(body)
                     for dest in range(0, total + 2):
                         if kind == "jump":
                             code = bytes([0x61]) + dest.to_bytes(2, "big") + bytes([0x56]) + body
+                        elif kind == "jumpis":
+                            # symbolic condition: both sides feasible (forking JUMPI)
+                            code = bytes([0x5F, 0x35, 0x61]) + dest.to_bytes(2, "big") + bytes([0x57]) + body
                         else:
                             cv = 1 if kind == "jumpi1" else 0
                             code = bytes([0x60, cv, 0x61]) + dest.to_bytes(2, "big") + bytes([0x57]) + body
-                        fails, exp = run_jump_case(code)
-                        case = {"mode": "jump", "code": code.hex()}
+                        fails, exp = run_jump_case(code, symbolic=(kind == "jumpis"))
+                        case = {"mode": "jump", "code": code.hex(), "symbolic": kind == "jumpis"}
                         if fails is None:
                             acc.exclude("ref:" + exp)
                             continue
                         # non-trivial: destination is a 0x5b byte (genuine or inside push data)
                         nt = dest < len(code) and code[dest] == 0x5B
-                        acc.case("j/" + code.hex(), nt, klass=["jump:" + exp], sample=case)
+                        acc.case("j/" + kind + code.hex(), nt, klass=["jump:" + exp, "kind:" + kind], sample=case)
                         for bucket, detail in fails:
                             acc.fail(bucket, case, detail)
         acc.exhaustive = True
@@ -432,7 +459,7 @@ def run_shard(spec, seed, tier):
 
 def replay(case):
     if case.get("mode") == "jump":
-        fails, _ = run_jump_case(bytes.fromhex(case["code"]))
+        fails, _ = run_jump_case(bytes.fromhex(case["code"]), symbolic=bool(case.get("symbolic")))
         fails = fails or []
     else:
         fails = check_contract(bytes.fromhex(case["code"]), case["a"], case["b"], case.get("rep", "chunks"))
